@@ -116,10 +116,8 @@ class World:
         d = {n: self.R[t] for n, t in toks.items()}
         if kind == "bzr":
             import fastbencode
-            b = self.Branch.open(self.bzr[role])
             raw = fastbencode.bencode({n.encode("utf-8"): v for n, v in d.items()})
-            with b.lock_write():
-                b._transport.put_bytes("tags", raw)
+            self.store.raw().put_bytes(role + "/.bzr/branch/tags", raw)
         elif kind == "git":
             from dulwich.repo import Repo
             r = Repo(self.git[role])
@@ -132,24 +130,33 @@ class World:
             finally:
                 r.close()
         elif kind == "mem":
-            self.mem[role] = dict(d)
+            from breezy.tag import MemoryTags
+            self.mem[role] = MemoryTags(dict(d))
         else:
             raise ValueError(kind)
         return d
 
     def open_tags(self, kind, role):
         if kind == "bzr":
-            return self.Branch.open(self.bzr[role]).tags
+            from breezy.transport import get_transport_from_url
+            return self.Branch.open_from_transport(get_transport_from_url(self.bzr[role])).tags
         if kind == "git":
             return self.Branch.open(self.git[role]).tags
-        from breezy.tag import MemoryTags
-        return MemoryTags(self.mem[role])
+        return self.mem[role]
 
     def read(self, kind, role):
         """Observation from a fresh object."""
         if kind == "mem":
-            return dict(self.mem[role])
+            return dict(self.mem[role].get_tag_dict())
         return dict(self.open_tags(kind, role).get_tag_dict())
+
+    def read_raw(self, kind, role):
+        """Observation of the stored state without the tag code (bzr: decode the tags file)."""
+        if kind == "bzr":
+            import fastbencode
+            raw = self.store.raw().get_bytes(role + "/.bzr/branch/tags")
+            return {k.decode("utf-8"): v for k, v in fastbencode.bdecode(raw).items()} if raw else {}
+        return self.read(kind, role)
 
     def read_refs(self, role):
         from dulwich.repo import Repo
@@ -202,12 +209,12 @@ def check_merge(acc, skind, dkind, stoks, dtoks, overwrite, selname, via="merge_
     dst = w.set_state(dkind, "dst", dtoks)
     case = {"source_kind": skind, "dest_kind": dkind, "source": stoks, "dest": dtoks,
             "overwrite": overwrite, "selector": selname, "via": via}
-    if w.read(skind, "src") != src or w.read(dkind, "dst") != dst:
-        acc.violation("setup:%s:state-not-read-back" % (skind if w.read(skind, "src") != src else dkind), case)
-        return
     acc.n += 1
     st = w.open_tags(skind, "src")
     dt = w.open_tags(dkind, "dst")
+    if dict(st.get_tag_dict()) != src or dict(dt.get_tag_dict()) != dst:
+        acc.violation("setup:%s:state-not-read-back" % (skind if dict(st.get_tag_dict()) != src else dkind), case)
+        return
     try:
         if via == "merge_to":
             ret = st.merge_to(dt, overwrite=overwrite, selector=sel)
@@ -223,8 +230,8 @@ def check_merge(acc, skind, dkind, stoks, dtoks, overwrite, selname, via="merge_
         acc.violation("%s:%s->%s:%s:%s" % (via, skind, dkind, type(e).__name__, _frame(e)),
                       dict(case, error=repr(e)))
         return
-    after = w.read(dkind, "dst")
-    src_after = w.read(skind, "src")
+    after = w.read_raw(dkind, "dst")     # bzr: the stored file decoded independently; git: fresh open
+    src_after = w.read_raw(skind, "src")
     exp, eupd, econf = ref_merge(src, dst, overwrite, sel)
     if eupd or econf:
         acc.nt((skind, dkind, _key(stoks), _key(dtoks), overwrite, selname, via))
@@ -301,19 +308,19 @@ def check_bound(acc, skind, stoks, ctoks, mtoks, overwrite, ignore_master, selna
     master = w.set_state("bzr", "master", mtoks)
     case = {"source_kind": skind, "source": stoks, "child": ctoks, "master": mtoks, "overwrite": overwrite,
             "ignore_master": ignore_master, "selector": selname}
-    if w.read(skind, "src") != src or w.read("bzr", "child") != child or w.read("bzr", "master") != master:
-        acc.violation("setup:bound:state-not-read-back", case)
-        return
     acc.n += 1
     st = w.open_tags(skind, "src")
     dt = w.open_tags("bzr", "child")
+    if dict(st.get_tag_dict()) != src or dict(dt.get_tag_dict()) != child or w.read_raw("bzr", "master") != master:
+        acc.violation("setup:bound:state-not-read-back", case)
+        return
     try:
         ret = st.merge_to(dt, overwrite=overwrite, ignore_master=ignore_master, selector=sel)
     except Exception as e:  # noqa
         acc.violation("merge_to:%s->bound:%s:%s" % (skind, type(e).__name__, _frame(e)), dict(case, error=repr(e)))
         return
-    c_after = w.read("bzr", "child")
-    m_after = w.read("bzr", "master")
+    c_after = w.read_raw("bzr", "child")
+    m_after = w.read_raw("bzr", "master")
     cexp, cupd, cconf = ref_merge(src, child, overwrite, sel)
     if ignore_master:
         mexp, mupd, mconf = dict(master), {}, set()
@@ -327,11 +334,11 @@ def check_bound(acc, skind, stoks, ctoks, mtoks, overwrite, ignore_master, selna
                       dict(case, expected=cexp, got=c_after))
         return
     if m_after != mexp:
-        acc.violation("%s:master-%s:%s" % (tag, "modified-despite-ignore_master" if ignore_master else "wrong",
-                                           "overwrite" if overwrite else "no-overwrite"),
-                      dict(case, expected=mexp, got=m_after))
+        what = ("modified-despite-ignore_master" if ignore_master else
+                "not-updated" if m_after == master else "wrong")
+        acc.violation("%s:master-%s" % (tag, what), dict(case, expected=mexp, got=m_after))
         return
-    if w.read(skind, "src") != src:
+    if w.read_raw(skind, "src") != src:
         acc.violation("%s:source-changed" % tag, case)
         return
     upd, conf = ret
@@ -347,6 +354,9 @@ def check_bound(acc, skind, stoks, ctoks, mtoks, overwrite, ignore_master, selna
     acc.outcomes.add((tag, len(eupd), len(econf), ignore_master))
 
 
+BOUND_SELECTORS = (None, "only-a")
+
+
 def _bound_work(chunk):
     acc = par.Acc()
     for skind, names, sitems, citems in chunk:
@@ -354,7 +364,7 @@ def _bound_work(chunk):
         for mtoks in dicts("12", names):
             for overwrite in (False, True):
                 for ignore_master in (False, True):
-                    for selname in (None, "only-a"):
+                    for selname in BOUND_SELECTORS:
                         check_bound(acc, skind, stoks, ctoks, mtoks, overwrite, ignore_master, selname)
     return acc
 
@@ -376,7 +386,7 @@ def strings(alpha, maxlen, empty):
 def check_roundtrip_bzr(acc, d):
     w = world()
     from breezy.bzr.tag import BasicTags
-    b = w.Branch.open(w.bzr["dst"])
+    b = w.open_tags("bzr", "dst").branch
     case = {"dict": {repr(k): repr(v) for k, v in d.items()}}
     acc.n += 1
     if len(d) > 1 or any(len(k) > 1 or len(v) > 1 for k, v in d.items()):
@@ -390,16 +400,16 @@ def check_roundtrip_bzr(acc, d):
             acc.violation("roundtrip:bzr:serialise-deserialise-differs", dict(case, raw=repr(raw)))
             return
         t._set_tag_dict(d)
-        got = w.Branch.open(w.bzr["dst"]).tags.get_tag_dict()
+        got = w.open_tags("bzr", "dst").branch.tags.get_tag_dict()
         if got != d:
             acc.violation("roundtrip:bzr:stored-dict-differs", dict(case, got=repr(got)))
             return
         # the public route: set_tag one by one on an empty store, then read back
         t._set_tag_dict({})
-        b2 = w.Branch.open(w.bzr["dst"])
+        b2 = w.open_tags("bzr", "dst").branch
         for k, v in d.items():
             b2.tags.set_tag(k, v)
-        b3 = w.Branch.open(w.bzr["dst"])
+        b3 = w.open_tags("bzr", "dst").branch
         got = b3.tags.get_tag_dict()
         if got != d or any(b3.tags.lookup_tag(k) != v for k, v in d.items()):
             acc.violation("roundtrip:bzr:set_tag-then-read-differs", dict(case, got=repr(got)))
@@ -413,7 +423,7 @@ def check_roundtrip_bzr(acc, d):
             return
         for k in list(d):
             b3.tags.delete_tag(k)
-        if w.Branch.open(w.bzr["dst"]).tags.get_tag_dict() != {}:
+        if w.open_tags("bzr", "dst").branch.tags.get_tag_dict() != {}:
             acc.violation("roundtrip:bzr:delete_tag-leaves-tags", case)
             return
     except HarnessError:
@@ -497,8 +507,6 @@ COMBOS_T = [
     ("git", "bzr", "merge_to", "12T", "12"),
     ("git", "git", "merge_to", "12T", "12T"),
     ("git", "git", "pull", "12", "12"),
-    ("git", "bzr", "pull", "12", "12"),
-    ("bzr", "git", "pull", "12", "12"),
 ]
 
 
